@@ -57,8 +57,10 @@ def InvOK (w : World V) (net : Net V) (j : Nat) (iv : Invocation V) : Prop :=
              args := r.args, impl := f.id }
 
 def ComplOK (w : World V) (net : Net V) (a : Nat) (x : Nat × Outcome V) : Prop :=
-  ∃ r, r ∈ (net.cl a).issued ∧ r.serial = x.1 ∧ r.dest < net.n ∧
-    ∃ ans, (some a, x.1, ans) ∈ (net.cl r.dest).answers ∧ x.2 = outcomeOf r.retSig (replyOf w ans)
+  ∃ r, r ∈ (net.cl a).issued ∧ r.serial = x.1 ∧
+    (x.2 = .timedOut ∨
+     (x.2.isTimeout = false ∧ r.dest < net.n ∧
+      ∃ ans, (some a, x.1, ans) ∈ (net.cl r.dest).answers ∧ x.2 = outcomeOf r.retSig (replyOf w ans)))
 
 /-! ### counting the tokens of one call -/
 
@@ -70,7 +72,8 @@ structure Stages where
   executing : Nat     -- unfired Deferred at the exporter
   replyUp : Nat       -- reply on exporter -> bus
   replyDown : Nat     -- reply on bus -> caller
-  completed : Nat     -- completion recorded at the caller
+  completed : Nat     -- completion by the reply recorded at the caller
+  late : Nat          -- the reply arrived after the call had timed out and was ignored
 
 def stages (net : Net V) (a : Nat) (r : CallRec V) : Stages :=
   { callUp := (net.cl a).up.countP (isCall r.serial),
@@ -79,10 +82,11 @@ def stages (net : Net V) (a : Nat) (r : CallRec V) : Stages :=
     executing := (net.cl r.dest).exec.countP (execKey a r.serial),
     replyUp := (net.cl r.dest).up.countP (isReplyTo a r.serial),
     replyDown := (net.cl a).down.countP (isReply r.serial),
-    completed := (net.cl a).completions.countP (complKey r.serial) }
+    completed := (net.cl a).completions.countP (complReplyKey r.serial),
+    late := (net.cl a).late.countP (lateKey r.serial) }
 
 def Stages.total (s : Stages) : Nat :=
-  s.callUp + s.callDown + s.dropped + s.executing + s.replyUp + s.replyDown + s.completed
+  s.callUp + s.callDown + s.dropped + s.executing + s.replyUp + s.replyDown + s.completed + s.late
 
 def tokens (net : Net V) (a : Nat) (r : CallRec V) : Nat := (stages net a r).total
 
@@ -109,9 +113,17 @@ structure Inv (w : World V) (net : Net V) : Prop where
   serial_uniq : ∀ a r r', r ∈ (net.cl a).issued → r' ∈ (net.cl a).issued → r.serial = r'.serial → r = r'
   pend : ∀ a r, r ∈ (net.cl a).issued → (net.cl a).completions.countP (complKey r.serial) = 0 →
     pLookup (net.cl a).pending r.serial = some r.retSig
+  /-- what is pending is an issued call that has not completed in any way -/
+  pend_inv : ∀ a s v, pLookup (net.cl a).pending s = some v →
+    ∃ r, r ∈ (net.cl a).issued ∧ r.serial = s ∧ v = r.retSig ∧ (net.cl a).completions.countP (complKey s) = 0
+  /-- a Deferred fires at most once (reply or deadline, whichever comes first) -/
+  compl_le : ∀ a s, (net.cl a).completions.countP (complKey s) ≤ 1
+  /-- a reply is ignored only when its call has completed (by its deadline) -/
+  late_ok : ∀ a s, s ∈ (net.cl a).late → 1 ≤ (net.cl a).completions.countP (complKey s)
   tok : ∀ a r, r ∈ (net.cl a).issued → tokens net a r = 1
   ans_cnt : ∀ a r, r ∈ (net.cl a).issued →
-    answersFor net a r = (stages net a r).replyUp + (stages net a r).replyDown + (stages net a r).completed
+    answersFor net a r = (stages net a r).replyUp + (stages net a r).replyDown + (stages net a r).completed +
+      (stages net a r).late
   inv_cnt : ∀ a r, r ∈ (net.cl a).issued →
     invocationsFor net a r = (stages net a r).executing + resultsFor net a r
 
@@ -164,13 +176,16 @@ theorem InvOK.mono {w : World V} {net net' : Net V} (h : Le net net') {j : Nat} 
 
 theorem ComplOK.mono {w : World V} {net net' : Net V} (h : Le net net') {a : Nat} {x : Nat × Outcome V}
     (hm : ComplOK w net a x) : ComplOK w net' a x := by
-  obtain ⟨r, hr, h1, h2, ans, hans, ho⟩ := hm
-  exact ⟨r, h.issued _ _ hr, h1, by rw [h.n_eq]; exact h2, ans, h.answers _ _ hans, ho⟩
+  obtain ⟨r, hr, h1, h2⟩ := hm
+  refine ⟨r, h.issued _ _ hr, h1, ?_⟩
+  rcases h2 with h2 | ⟨h0, h2, ans, hans, ho⟩
+  · exact Or.inl h2
+  · exact Or.inr ⟨h0, by rw [h.n_eq]; exact h2, ans, h.answers _ _ hans, ho⟩
 
 /-! ### the initial state -/
 
 theorem Inv.init (w : World V) (n : Nat) (first : Nat → Nat) : Inv w (Net.init n first) := by
-  constructor <;> intros <;> simp_all [Net.init, Client.init]
+  constructor <;> intros <;> simp_all [Net.init, Client.init, pLookup]
 
 /-! ### a key no issued call has is nowhere in the network -/
 
@@ -285,6 +300,26 @@ theorem Inv.no_compl (inv : Inv w net) {a s : Nat} (h : ∀ r, r ∈ (net.cl a).
   simp only [complKey, beq_eq_false_iff_ne, ne_eq]
   intro hn
   exact h r hr (by rw [h1, hn])
+
+theorem Inv.no_complReply (inv : Inv w net) {a s : Nat} (h : ∀ r, r ∈ (net.cl a).issued → r.serial ≠ s) :
+    (net.cl a).completions.countP (complReplyKey s) = 0 := by
+  have := inv.no_compl h
+  rw [List.countP_eq_zero] at this ⊢
+  intro x hx
+  have := this x hx
+  simp only [complReplyKey, complKey] at this ⊢
+  simp [this]
+
+theorem Inv.no_late (inv : Inv w net) {a s : Nat} (h : ∀ r, r ∈ (net.cl a).issued → r.serial ≠ s) :
+    (net.cl a).late.countP (lateKey s) = 0 := by
+  apply countP_eq_zero_of
+  intro x hx
+  simp only [lateKey, beq_eq_false_iff_ne, ne_eq]
+  intro hn
+  have h1 := inv.late_ok a x hx
+  rw [hn] at h1
+  have := inv.no_compl h
+  omega
 
 theorem Inv.no_ans (inv : Inv w net) {a s : Nat} (d : Nat) (h : ∀ r, r ∈ (net.cl a).issued → r.serial ≠ s) :
     (net.cl d).answers.countP (ansKey a s) = 0 := by
